@@ -602,7 +602,17 @@ func norm(o outcome, sc scenario) string {
 		if sc.name == "chat-send" && e == "actor<-106" {
 			continue // receiving one's own public chat line is governed by read-chat (bit 9), not by send-chat
 		}
+		if sc.name == "disconnect" && strings.HasSuffix(e, "<-302") {
+			continue // see below
+		}
 		em = append(em, e)
 	}
-	return fmt.Sprintf("replied=%v err=%v fields=%s emissions=%v diff=%v tables=%s", o.replied, o.errCode != 0, o.replyIDs, em, o.diff, o.tables)
+	tables := o.tables
+	if sc.name == "disconnect" {
+		// a granted disconnect takes effect one second after the reply (the server's own delay): whether the
+		// observation falls before or after that moment depends on the machine's load, not on the privilege. The
+		// delayed effect (connection closed, user-left notices) is C17's subject; here only the reply is compared.
+		tables = "(not compared)"
+	}
+	return fmt.Sprintf("replied=%v err=%v fields=%s emissions=%v diff=%v tables=%s", o.replied, o.errCode != 0, o.replyIDs, em, o.diff, tables)
 }
